@@ -76,6 +76,8 @@ fn write_to_buf_escaped<W: Write>(writer: &mut W, text: &str, attr_mode: bool) -
     for c in text.chars() {
         match c {
             '&' => writer.write_all(b"&amp;"),
+            // A literal CR would be normalized to LF when the output is parsed again.
+            '\r' => writer.write_all(b"&#13;"),
             '\'' if attr_mode => writer.write_all(b"&apos;"),
             '"' if attr_mode => writer.write_all(b"&quot;"),
             '<' if !attr_mode => writer.write_all(b"&lt;"),
